@@ -164,7 +164,16 @@ func fileIsReadable(L *LState, file *lFile) int {
 		L.Push(LNumber(1)) // C-Lua compatibility: Original Lua pushes errno to the stack
 		return 3
 	}
+	file.flushBeforeRead()
 	return 0
+}
+
+// flushBeforeRead writes pending buffered output out before the handle is read: the descriptor has one
+// position, and output that is flushed after the read would land where the read left it.
+func (file *lFile) flushBeforeRead() {
+	if bw, ok := file.writer.(*bufio.Writer); ok && bw.Buffered() > 0 {
+		bw.Flush()
+	}
 }
 
 var stdFiles = []struct {
@@ -495,6 +504,7 @@ func fileLinesIter(L *LState) int {
 	if file.reader == nil {
 		L.RaiseError("%s is opened for only writing.", file.Name())
 	}
+	file.flushBeforeRead()
 	buf, err, iseof := readBufioLine(file.reader)
 	if iseof {
 		L.Push(LNil)
@@ -620,6 +630,7 @@ func ioLinesIter(L *LState) int {
 	if file.reader == nil {
 		L.RaiseError("%s is opened for only writing.", file.Name())
 	}
+	file.flushBeforeRead()
 	buf, err, iseof := readBufioLine(file.reader)
 	if iseof {
 		if toclose {
